@@ -128,6 +128,20 @@ def gen_cases(tier, seed):
                 'get_read_caps': rng.choice(caps_menu),
                 'plan': {'gate': {'match': 's3:GetObject', 'phase': rng.choice(['before', 'after']), 'policy': rng.choice(['seeded', 'reverse'])}}}
         cases.append(spec)
+    # several downloads one after the other on ONE manager (each finished before the next is submitted), some with stream retries
+    for i in range(30 if quick else 300):
+        T, C = rng.choice([(8, 8), (16, 8), (8, 4)])
+        ts = [{'kind': 'download', 'dst': rng.choice(['path', 'seekable', 'nonseekable', 'fifo']), 'size': rng.choice([0, 1, T - 1, T, 2 * C + 1, 4 * C, 5 * C + 3])}
+              for _ in range(rng.choice([3, 4]))]
+        spec = {'seed': rng.randrange(1 << 30), 'sequential': True, 'transfers': ts, 'get_read_caps': rng.choice(caps_menu),
+                'config': dict(multipart_threshold=T, multipart_chunksize=C, io_chunksize=rng.choice([2, 4, 8]), max_request_concurrency=rng.choice([1, 2, 3]),
+                               max_in_memory_download_chunks=rng.choice([1, 2, 3]), num_download_attempts=3), 'plan': {}}
+        k = rng.randrange(len(ts))
+        if ts[k]['size'] > 0 and rng.random() < 0.6:
+            st = 'all' if ts[k]['size'] < T else str(C * rng.randrange(0, (ts[k]['size'] + C - 1) // C))
+            spec['plan']['faults'] = [{'at': f't{k}/s3:GetObject:{st}#0', 'phase': 'body', 'bytes': rng.randrange(0, 4), 'kind': rng.choice(STREAM_KINDS),
+                                       'tag': f'FAULT-seq{k}'}]
+        cases.append(spec)
     # process-pool worker loop replayed in-process (5 attempts fixed)
     for (T, C, io) in combos:
         for size in sizes_for(T, C):
